@@ -34,10 +34,41 @@ fn plan(tier: Tier) -> Vec<Workload> {
         Workload::new("seeds_ship", tier.pick(1_000, 20_000)).ship(),
         Workload::new("scripts", tier.pick(3_000, 60_000)),
         Workload::new("fronts", tier.pick(600, 10_000)),
+        // an interpreter with a past (draws, RND(0), errors) that is re-seeded must behave like a fresh one
+        Workload::new("reseed", tier.pick(6_000, 100_000)),
     ]
 }
 
+/// the state whose successor is `target` (the multiplier is odd, hence invertible modulo 2^33)
+fn predecessor(target: u64) -> u64 {
+    // inverse of 1664525 modulo 2^33 by Newton iteration
+    let m: u128 = 1 << 33;
+    let a: u128 = 1664525;
+    let mut inv: u128 = 1;
+    for _ in 0..6 {
+        inv = (inv * (2 + m - (a * inv) % m)) % m;
+    }
+    let t = (target as u128 + m - (lcg::INC % m)) % m;
+    ((t * inv) % m) as u64
+}
+
 fn check_state(s: u64) -> Result<(), String> {
+    // the same three facts through the dispatch the language uses (RND(x) with x > 0, x = 0, x < 0)
+    if s < (1u64 << 33) {
+        let want_ns = lcg::next_state(s);
+        match verif_hooks::rng_rnd(s, 1.0) {
+            (ns, Ok(v)) if ns == want_ns && v.to_bits() == lcg::value_of(want_ns).to_bits() => {}
+            other => return Err(format!("state {}: RND(1) gives {:?}; the documented step gives state {} value {:?}", s, other, want_ns, lcg::value_of(want_ns))),
+        }
+        match verif_hooks::rng_rnd(s, 0.0) {
+            (ns, Ok(v)) if ns == s && v.to_bits() == lcg::value_of(s).to_bits() => {}
+            other => return Err(format!("state {}: RND(0) gives {:?}; it must repeat {:?} without advancing", s, other, lcg::value_of(s))),
+        }
+        match verif_hooks::rng_rnd(s, -1.0) {
+            (ns, Err(())) if ns == s => {}
+            other => return Err(format!("state {}: RND(-1) gives {:?}; it must be an error without advancing", s, other)),
+        }
+    }
     let (ns, v) = verif_hooks::rng_step(s);
     let want_ns = lcg::next_state(s);
     if ns != want_ns {
@@ -86,6 +117,15 @@ fn pick_seed(rng: &mut crate::util::Rng, index: u64) -> u64 {
     if (index as usize) < BOUNDARY_SEEDS.len() * 2 {
         return BOUNDARY_SEEDS[index as usize % BOUNDARY_SEEDS.len()];
     }
+    if rng.chance(1, 6) {
+        // seeds one, two or three steps before a special state (0, 1, 2^33-1, 2^32), possibly shifted by k*2^33
+        let target = *rng.pick(&[0u64, 1, (1 << 33) - 1, 1 << 32, 2]);
+        let mut s = predecessor(target);
+        for _ in 0..rng.below(3) {
+            s = predecessor(s);
+        }
+        return s + (rng.below(4) << 33);
+    }
     match rng.below(4) {
         0 => rng.next_u64(),
         1 => rng.next_u64() >> rng.below(40),
@@ -95,14 +135,10 @@ fn pick_seed(rng: &mut crate::util::Rng, index: u64) -> u64 {
 }
 
 fn print_of(sess: &mut Session, line: &str) -> (Res, String) {
-    let rec = sess.call(Op::Line(line.to_string()));
-    let mut s = String::new();
-    for o in &rec.outs {
-        if let Out::Print(p) = o {
-            s.push_str(p);
-        }
-    }
-    (rec.res.clone(), s)
+    sess.settle();
+    let out = sess.run_line(line, 50);
+    sess.settle();
+    (out.res.clone(), out.printed())
 }
 
 fn run_case(ctx: &Ctx, index: u64, rep: &mut Report) {
@@ -339,6 +375,41 @@ fn run_case(ctx: &Ctx, index: u64, rep: &mut Report) {
             }
             rep.nontrivial(hash_str(&format!("front{}", seed)));
         }
+        "reseed" => {
+            // A has a past; B is fresh. Both get randomize(seed); the same script must print the same on both.
+            let mut a = Session::new();
+            a.check_invariants = false;
+            let past = rng.below(6);
+            a.call(Op::Randomize(pick_seed(&mut rng, 999)));
+            for _ in 0..past {
+                let l = rng.s(&["PRINT RND(1)", "X = RND(1)", "PRINT RND(0)", "PRINT RND(-1)", "PRINT RND(1) + RND(1)", "10 PRINT RND(1)", "RUN"]).to_string();
+                a.run_line(&l, 20);
+            }
+            let seed = if rng.coin() { rng.below(1 << 33) } else { pick_seed(&mut rng, 999) };
+            let mut b = Session::new();
+            b.check_invariants = false;
+            a.call(Op::Randomize(seed));
+            b.call(Op::Randomize(seed));
+            let mut script = vec![];
+            for k in 0..8 {
+                let l = if k == 0 && rng.coin() { "PRINT RND(0)".to_string() } else {
+                    rng.s(&["PRINT RND(1)", "PRINT RND(0)", "PRINT RND(1); RND(0)", "PRINT RND(-1)", "X = RND(.5) : PRINT X"]).to_string()
+                };
+                script.push(l.clone());
+                let (ra, ta) = print_of(&mut a, &l);
+                let (rb, tb) = print_of(&mut b, &l);
+                if ra.outcome() != rb.outcome() || ta != tb {
+                    ctx.violation(rep, "C18", "reseed-differs", index,
+                        format!("after randomize({}) a used interpreter prints {:?} ({:?}) for {:?} where a fresh one prints {:?} ({:?}); script so far {:?}", seed, ta, ra.outcome(), l, tb, rb.outcome(), script),
+                        json!({"seed": seed, "script": script, "past_statements": past}));
+                    return;
+                }
+                rep.count("reseed.statements_compared");
+            }
+            if past > 0 {
+                rep.nontrivial(hash_str(&format!("reseed{}|{:?}", seed, script)));
+            }
+        }
         other => panic!("unknown workload {}", other),
     }
 }
@@ -354,6 +425,7 @@ fn finalize(tier: Tier, rep: &mut Report) -> Finalize {
             ("seeds.product_overflows_u64".into(), 100),
             ("scripts.calls".into(), 10_000),
             ("fronts.draws".into(), 1_000),
+            ("reseed.statements_compared".into(), 20_000),
             ("distinct_nontrivial".into(), 1_000),
         ],
         assumptions: vec![
